@@ -434,7 +434,8 @@ Inductive prep :=
 
 Local Open Scope Z_scope.
 
-(* Rust `str::parse::<i64>()`: optional sign, at least one digit, digits only, in range *)
+(* parse_redis_integer (Redis string2ll): an optional '-', then a digit 1-9 followed by
+   digits; "0" is the only spelling of zero; the value must fit i64 *)
 Fixpoint parse_digits (b : bytes) (acc : Z) : option Z :=
   match b with
   | [] => Some acc
@@ -447,15 +448,16 @@ Definition in_i64 (z : Z) : bool := (I64_MIN <=? z) && (z <=? I64_MAX).
 Definition parse_i64 (b : bytes) : option Z :=
   let body (neg : bool) (t : list N) : option Z :=
     match t with
+    | d :: _ => if (N.leb 49 d && N.leb d 57)%bool then
+                  match parse_digits t 0 with
+                  | Some z => let v := if neg then - z else z in if in_i64 v then Some v else None
+                  | None => None
+                  end
+                else None
     | [] => None
-    | _ => match parse_digits t 0 with
-           | Some z => let v := if neg then - z else z in if in_i64 v then Some v else None
-           | None => None
-           end
     end in
   match b with
-  | [] => None
-  | 43%N :: t => body false t
+  | [48%N] => Some 0
   | 45%N :: t => body true t
   | _ => body false b
   end.
@@ -618,6 +620,95 @@ Definition prim_step (st : kst) (p : prim) : kst * prep :=
 
 Definition kstep : kst -> list prim -> kst * list prep := batch_step _ _ _ prim_step.
 
+(* ---- deadlines.  The node evaluates expiry at the caller's clock on every message
+   (set_time + evict_expired_keys), and the harness moves the clock only at instants when no
+   request is in flight; so time is an explicit operation [CAdv] of the history and the state
+   of a key is (value, deadline, now) with the invariant: a present key's deadline is > now. *)
+Record tst := TSt { t_val : kst; t_dl : option N; t_now : N }.
+
+Inductive cmd :=
+| CP (p : prim)                                  (* a command that does not mention time *)
+| CAdv (t : N)                                   (* the clock moves to t (virtual ms) *)
+| CSetPx (v : bytes) (ms : N)                    (* SET k v PX ms / EX s (ms = 1000 s) *)
+| CSetKeep (v : bytes)                           (* SET k v KEEPTTL *)
+| CExpire (ms : N) (nx xx gt lt : bool)          (* PEXPIRE k ms / EXPIRE k s, ms > 0 *)
+| CPersist
+| CTtl | CPttl
+| CGetEx (o : option (option N)).                (* GETEX k | GETEX k PERSIST | GETEX k PX ms *)
+
+(* does the command, applied to this value, clear the deadline (execute_set without KEEPTTL,
+   set_direct, execute_setnx on success)?  GETSET, APPEND, INCRBY, SETRANGE and the collection
+   commands leave it alone; a key that stops existing loses it in any case *)
+Definition clears_dl (p : prim) (v : kst) : bool :=
+  let present := match v with KNone => false | _ => true end in
+  match p with
+  | PSet _ => true
+  | PSetNx _ => negb present
+  | PSetOpt _ nx xx get =>
+      let wrong := match v with KNone | KStr _ => false | _ => true end in
+      negb ((get && wrong) || (nx && present) || (xx && negb present))
+  | _ => false
+  end.
+
+Definition cmd_step (s : tst) (c : cmd) : tst * prep :=
+  let '(TSt v dl now) := s in
+  let present := match v with KNone => false | _ => true end in
+  match c with
+  | CP p =>
+      let v' := fst (prim_step v p) in
+      let dl' := match v' with KNone => None | _ => if clears_dl p v then None else dl end in
+      (TSt v' dl' now, snd (prim_step v p))
+  | CAdv t =>
+      match dl with
+      | Some d => if (d <=? t)%N then (TSt KNone None t, ROk) else (TSt v dl t, ROk)
+      | None => (TSt v dl t, ROk)
+      end
+  | CSetPx x ms => (TSt (KStr x) (Some (now + ms)%N) now, ROk)
+  | CSetKeep x => (TSt (KStr x) (if present then dl else None) now, ROk)
+  | CExpire ms nx xx gt lt =>
+      if negb present then (s, RInt 0)
+      else
+        let new := (now + ms)%N in
+        let has := match dl with Some _ => true | None => false end in
+        if (nx && has)%bool then (s, RInt 0)
+        else if (xx && negb has)%bool then (s, RInt 0)
+        else if (gt && match dl with Some d => (new <=? d)%N | None => true end)%bool then (s, RInt 0)
+        else if (lt && match dl with Some d => (d <=? new)%N | None => false end)%bool then (s, RInt 0)
+        else if (new <=? now)%N then (TSt KNone None now, RInt 1)
+        else (TSt v (Some new) now, RInt 1)
+  | CPersist =>
+      match v, dl with
+      | KNone, _ => (s, RInt 0)
+      | _, Some _ => (TSt v None now, RInt 1)
+      | _, None => (s, RInt 0)
+      end
+  | CTtl =>
+      match v, dl with
+      | KNone, _ => (s, RInt (-2))
+      | _, None => (s, RInt (-1))
+      | _, Some d => let r := (d - now)%N in (s, RInt (Z.of_N (r / 1000 + (r mod 1000 + 500) / 1000)%N))
+      end
+  | CPttl =>
+      match v, dl with
+      | KNone, _ => (s, RInt (-2))
+      | _, None => (s, RInt (-1))
+      | _, Some d => (s, RInt (Z.of_N (d - now)%N))
+      end
+  | CGetEx o =>
+      match v with
+      | KNone => (s, RVal None)
+      | KStr b =>
+          match o with
+          | None => (s, RVal (Some b))
+          | Some None => (TSt v None now, RVal (Some b))
+          | Some (Some ms) => (TSt v (Some (now + ms)%N) now, RVal (Some b))
+          end
+      | _ => (s, RWrongType)
+      end
+  end.
+
+Definition tkstep : tst -> list cmd -> tst * list prep := batch_step _ _ _ cmd_step.
+
 Fixpoint bytes_list_eqb (a b : list bytes) : bool :=
   match a, b with
   | [], [] => true
@@ -645,12 +736,12 @@ Fixpoint preps_eqb (a b : list prep) : bool :=
   | _, _ => false
   end.
 
-Notation khist := (list (oprec (list prim) (list prep))) (only parsing).
+Notation khist := (list (oprec (list cmd) (list prep))) (only parsing).
 
-Definition lin_check (init : kst) (h : khist) : bool :=
-  lin_check_gen _ _ _ kstep preps_eqb init h.
-Definition lin_brute (init : kst) (h : khist) : bool :=
-  lin_brute_gen _ _ _ kstep preps_eqb init h.
+Definition lin_check (init : tst) (h : khist) : bool :=
+  lin_check_gen _ _ _ tkstep preps_eqb init h.
+Definition lin_brute (init : tst) (h : khist) : bool :=
+  lin_brute_gen _ _ _ tkstep preps_eqb init h.
 
 (* ------------------------------------------------------------------------------------ *)
 (* 5. A small keyed store: the shape of machine the per-key theorem is about             *)
